@@ -421,7 +421,12 @@ impl Report {
         if self.replay_mode {
             println!("replay verdict: {}", if nviol > 0 { "VIOLATION reproduced" } else if !self.known_hit.lock().unwrap().is_empty() { "known finding reproduced" } else { "not reproduced: the property holds on this case" });
         } else {
-            let dir = Path::new(VERIF_ROOT).join("evidence");
+            // VERIF_EVIDENCE_DIR: side runs (a thorough tier next to committed quick evidence, a run
+            // against a seeded change) write elsewhere; the registered commands never set it.
+            let dir = match std::env::var_os("VERIF_EVIDENCE_DIR") {
+                Some(d) => std::path::PathBuf::from(d),
+                None => Path::new(VERIF_ROOT).join("evidence"),
+            };
             let _ = std::fs::create_dir_all(&dir);
             let path = dir.join(format!("{}.json", self.property));
             if let Err(e) = std::fs::write(&path, serde_json::to_vec_pretty(&doc).unwrap()) {
